@@ -3,7 +3,7 @@
    (checked by vm_compute).  The same changes applied to the Go code are
    mutations of the self-test (notes/C16.md). *)
 From Coq Require Import List ZArith Bool.
-From GZ Require Import Lib.RollingWindow Lib.RollingWindowSpec C16.Model.
+From GZ Require Import Lib.RollingWindow Lib.RollingWindowSpec C16.Model C16.ModelW.
 Import ListNotations.
 Open Scope Z_scope.
 
@@ -69,4 +69,37 @@ Theorem cache_fifo_eviction_refuted :
   let c1 := fst (c_get_nomove c0 1) in
   snd (c_set c1 3 30) = [1] /\
   s_evictions (s_new 2) [CSet 1 10; CSet 2 20; CGet 1; CSet 3 30] = [[]; []; []; [2]].
+Proof. vm_compute. split; reflexivity. Qed.
+
+(* ------------------------------------------------------------------ *)
+(* cache + wheel, expiry below one wheel interval (outside the quantifier of
+   cache_entry_expires_at_due_tick, hypothesis interval <= d).
+
+   For a NEW key SetTimer clamps the delay to one interval: the entry lives one tick.
+   For a key ALREADY PRESENT SetWithExpire calls MoveTimer, which for a delay below
+   the interval runs the callback at once: the value just written is deleted
+   immediately (observed on the real code by the correspondence run, corpus case 3 of
+   kind "cachew").  With SetTimer for rewrites too (cwmv = false) the entry lives one
+   tick in both cases. *)
+Theorem cache_subinterval_rewrite_refuted :
+  (* interval 1000, expiries 1500 then 500 on the same key: the second value is gone at once *)
+  cw_run (cw_new 0 300 1000 true) [XSet 1 10 1500; XSet 1 11 500; XGet 1] = [OUnit; OUnit; OOpt None] /\
+  (* the same expiry on a new key: present until the first tick *)
+  cw_run (cw_new 0 300 1000 true) [XSet 1 11 500; XGet 1; XTick; XGet 1] = [OUnit; OOpt (Some 11); OUnit; OOpt None] /\
+  (* rewrites through SetTimer: present until the first tick *)
+  cw_run (cw_new 0 300 1000 false) [XSet 1 10 1500; XSet 1 11 500; XGet 1; XTick; XGet 1] =
+    [OUnit; OUnit; OOpt (Some 11); OUnit; OOpt None].
+Proof. vm_compute. repeat split. Qed.
+
+(* a rewrite that does not refresh the timer (no MoveTimer): the stale earlier expiry
+   fires and removes the rewritten entry before its own due tick *)
+Definition cw_set_norefresh (s : cachew) (k v d : Z) : cachew :=
+  if amem k (cdata (cwc s))
+  then mkCW (fst (c_set (cwc s) k v)) (cww s) (cwmv s)
+  else fst (fst (cw_set s k v d)).
+
+Theorem cache_rewrite_without_refresh_refuted :
+  let s1 := cw_set_norefresh (fst (fst (cw_set (cw_new 0 300 1000 true) 1 10 1500))) 1 11 3500 in
+  let s2 := fst (fst (cw_step s1 XTick)) in
+  alookup 1 (cdata (cwc s2)) = None /\ 1 <? 3500 / 1000 = true.
 Proof. vm_compute. split; reflexivity. Qed.
